@@ -43,6 +43,9 @@ assumptions("C14", [
     "raise the documented ValueError); composition is asserted where it is exact: first target refines the source classes, or second "
     "target is a coarsening of the first",
     "Series operands of scale/shift share every key of a common index level with the collective (the broadcaster's documented use)",
+    "input preservation: every object handed to the library (collective, histogram, operand Series, bin IntervalIndex, list of histograms) "
+    "is deep-copied before the call and must be equal afterwards (values, index values/names/dtype, dtypes, column order, name); whether the "
+    "result shares memory with the input is not asserted",
 ])
 
 
@@ -144,6 +147,40 @@ def _model(fr, to):
     return amp, mean, up, lo, R
 
 
+def _snapshot(obj):
+    """deep copy of a pandas object handed to the library (taken BEFORE the call)"""
+    return obj.copy(deep=True)
+
+
+def _assert_unchanged(before, obj, what):
+    """The caller's object is unchanged by the library: values, index (values, names, dtypes), dtypes, column order, name.
+    'scale(f) is the f-scaled version of the collective the caller holds, on every call' needs exactly this."""
+    why = None
+    if type(before) is not type(obj):
+        why = "type %s -> %s" % (type(before).__name__, type(obj).__name__)
+    elif isinstance(obj, pd.DataFrame) and list(before.columns) != list(obj.columns):
+        why = "columns %r -> %r" % (list(before.columns), list(obj.columns))
+    elif isinstance(obj, pd.DataFrame) and [str(t) for t in before.dtypes] != [str(t) for t in obj.dtypes]:
+        why = "dtypes %r -> %r" % ([str(t) for t in before.dtypes], [str(t) for t in obj.dtypes])
+    elif isinstance(obj, pd.Series) and (str(before.dtype) != str(obj.dtype) or before.name != obj.name):
+        why = "dtype/name %s/%r -> %s/%r" % (before.dtype, before.name, obj.dtype, obj.name)
+    elif not before.index.equals(obj.index) or list(before.index.names) != list(obj.index.names) \
+            or str(before.index.dtype) != str(obj.index.dtype):
+        why = "index %r -> %r" % (before.index, obj.index)
+    elif not before.equals(obj):
+        why = "values %r -> %r" % (before.values.tolist()[:6], obj.values.tolist()[:6])
+    if why:
+        raise Violation("%s modified the object it was called on / given: %s" % (what, why), bucket="input_modified:" + what.split("(")[0])
+
+
+def _same_result(a, b, what):
+    """the same operation applied twice to the same object gives the same result"""
+    ok = type(a) is type(b) and a.index.equals(b.index) and list(a.index.names) == list(b.index.names) and a.equals(b)
+    if not ok:
+        raise Violation("%s applied twice to the same object gives different results: %r then %r"
+                        % (what, a.values.tolist()[:6], b.values.tolist()[:6]), bucket="call_twice:" + what.split("(")[0])
+
+
 def _same(got, want, atol=0.0):
     got = np.asarray(got, dtype=float)
     want = np.asarray(want, dtype=float)
@@ -166,7 +203,7 @@ def _same(got, want, atol=0.0):
 def collective_consistent(case, ctx):
     _LC()
     df, groups = _frame(case)
-    df0 = df.copy()
+    df0 = _snapshot(df)
     lc = df.load_collective
     fr, to = _from_to(case)
     amp, mean, up, lo, R = _model(fr, to)
@@ -198,8 +235,11 @@ def collective_consistent(case, ctx):
     ratio = np.where(np.isnan(ratio), 0.0, ratio)
     if not _same(Rr, ratio):
         raise Violation("R = %r but lower/upper = %r" % (list(Rr), list(ratio)), bucket="collective:R")
-    if not df.equals(df0):
-        ctx.label("observation:input_modified")
+    _assert_unchanged(df0, df, "reading amplitude/meanstress/upper/lower/R/cycles")
+    # read again, through the same accessor and through a fresh one: same values
+    for k, again in (("amplitude", lc.amplitude), ("meanstress", df.load_collective.meanstress), ("upper", lc.upper),
+                     ("lower", df.load_collective.lower), ("cycles", lc.cycles)):
+        _same_result(got[k], again, "reading %s" % k)
     # the other description of the same cycles
     if case["form"] == "from_to":
         other = pd.DataFrame({"range": 2.0 * A, "mean": Mn}, index=df0.index)
@@ -223,33 +263,53 @@ def collective_consistent(case, ctx):
 def _scale_shift_cases(draw, tier):
     c = draw(_collectives(nmin=2))
     op = draw(st.sampled_from(["scale", "shift"]))
-    kind = draw(st.sampled_from(["scalar", "scalar", "aligned", "cross"]))
+    kind = draw(st.sampled_from(["scalar", "scalar", "aligned", "cross", "same_index"]))
     val = st.one_of(st.sampled_from([0.0, 1.0, -1.0, 2.0, 0.5, -3.0]), st.floats(-1e3, 1e3, allow_nan=False).map(lambda x: x + 0.0))
+    scalar_type = "float"
     if kind == "scalar":
         operand = [draw(val)]
+        scalar_type = draw(st.sampled_from(["float", "np.float64", "int", "np.int64"]))
+        if scalar_type in ("int", "np.int64"):
+            operand = [float(draw(st.integers(-5, 5)))]
+    elif kind == "same_index":
+        operand = draw(st.lists(val, min_size=len(c["a"]), max_size=len(c["a"])))     # one value per row, indexed like the collective
+        if c["layout"] == "plain":
+            # unnamed index levels of two objects are different levels for the broadcaster (cross product) unless both share the
+            # very same Index object - that is the subject of C13; here the common index is named
+            c["layout"] = "named"
     elif kind == "aligned":
         if c["layout"] not in ("multi", "multi3"):
             c["layout"] = "multi"
         operand = [draw(val), draw(val)]                      # per node 1, 2
     else:
         operand = draw(st.lists(val, min_size=1, max_size=3))  # new level 'op'
-    return dict(c, op=op, operand_kind=kind, operand=operand)
+    return dict(c, op=op, operand_kind=kind, operand=operand, scalar_type=scalar_type)
 
 
 @subcheck("C14", "collective_scale_shift", strategy=_scale_shift_cases, quick=1200, thorough=40000,
-          doc="LoadCollective.scale/shift with scalar, per-node Series (aligned) or Series over a new level (cross): from/to == model exactly, "
-              "amplitude |f| a resp. a, mean f m resp. m + d (1e-12 of the operand scale), cycles untouched")
+          doc="LoadCollective.scale/shift with scalar (python float / int, np.float64 / np.int64), Series on the same index, per-node Series "
+              "(aligned) or Series over a new level (cross), from/to and range/mean collectives: from/to == model exactly, amplitude |f| a "
+              "resp. a, mean f m resp. m + d (1e-12 of the operand scale), cycles untouched; the caller's DataFrame and operand are unchanged "
+              "(values, index, names, dtypes, column order), the call repeated gives the same result, derived quantities read after the call "
+              "equal those read before")
 def collective_scale_shift(case, ctx):
     _LC()
     df, groups = _frame(case)
-    df0 = df.copy()
+    df0 = _snapshot(df)
     fr, to = _from_to(case)
     n = len(fr)
     kind, op = case["operand_kind"], case["op"]
     ctx.label(op, kind, case["form"], case["layout"], "int64_columns" if str(df0.dtypes.iloc[0]).startswith("int") else "float_columns")
     if kind == "scalar":
         operand = case["operand"][0]
-        rows = [(i, operand, tuple(df0.index[i]) if isinstance(df0.index[i], tuple) else (df0.index[i],)) for i in range(n)]
+        stype = case.get("scalar_type", "float")
+        operand = {"float": float, "np.float64": np.float64, "int": int, "np.int64": np.int64}[stype](operand)
+        ctx.label("scalar:" + stype)
+        rows = [(i, float(operand), tuple(df0.index[i]) if isinstance(df0.index[i], tuple) else (df0.index[i],)) for i in range(n)]
+    elif kind == "same_index":
+        operand = pd.Series(case["operand"], index=df0.index, dtype=float)
+        rows = [(i, case["operand"][i], tuple(df0.index[i]) if isinstance(df0.index[i], tuple) else (df0.index[i],)) for i in range(n)]
+        ctx.nontrivial()
     elif kind == "aligned":
         operand = pd.Series(case["operand"], index=pd.Index([1, 2], name="node"), dtype=float)
         rows = [(i, case["operand"][df0.index[i][0] - 1], tuple(df0.index[i])) for i in range(n)]
@@ -261,18 +321,30 @@ def collective_scale_shift(case, ctx):
         ctx.nontrivial()
     if groups:
         ctx.nontrivial()
-    operand0 = operand.copy() if isinstance(operand, pd.Series) else operand
+    operand0 = _snapshot(operand) if isinstance(operand, pd.Series) else operand
     lc = df.load_collective
+    before = {k: getattr(lc, k).copy() for k in ("amplitude", "meanstress", "upper", "lower", "cycles")}
     res = (lc.scale(operand) if op == "scale" else lc.shift(operand))
     out = res.to_pandas()
-    # not part of the statement, only reported: scale/shift with a scalar works in place on a from/to DataFrame
-    if not df.equals(df0):
-        ctx.label("observation:input_modified_in_place")
-    if isinstance(operand, pd.Series) and not operand.equals(operand0):
-        ctx.label("observation:operand_modified")
+    what = "LoadCollective.%s(%s)" % (op, kind if kind != "scalar" else "scalar " + case.get("scalar_type", "float"))
+    # the result is the scaled / shifted version of the collective the caller holds - on every call: the caller's
+    # DataFrame and operand stay what they were, a second call gives the same result, and the collective still has
+    # the derived quantities it had before
+    _assert_unchanged(df0, df, what)
+    if isinstance(operand, pd.Series):
+        _assert_unchanged(operand0, operand, what + " [operand]")
+    for k, v in before.items():
+        _same_result(v, getattr(lc, k), "%s: %s of the collective read before/after the call" % (what, k))
+        _same_result(v, getattr(df.load_collective, k), "%s: %s of the caller's DataFrame read before/after the call" % (what, k))
+    out2 = (lc.scale(operand) if op == "scale" else lc.shift(operand)).to_pandas()
+    _same_result(out, out2, what)
+    out3 = (df.load_collective.scale(operand) if op == "scale" else df.load_collective.shift(operand)).to_pandas()
+    _same_result(out, out3, what + " via a fresh accessor")
     if len(out) != len(rows):
         raise Violation("%s with %s operand: %d rows, expected %d" % (op, kind, len(out), len(rows)), bucket="scale_shift:rows")
     names = list(df0.index.names) + (["op"] if kind == "cross" else [])
+    if kind == "same_index" and isinstance(df0.index, pd.MultiIndex):
+        out = out.reorder_levels(list(df0.index.names)) if list(out.index.names) != list(df0.index.names) else out
     if kind == "cross" and case["layout"] == "plain":
         names = None      # unnamed level: compare by position of the level instead
     got = {}
@@ -379,7 +451,7 @@ def _loc(iv, where):
 def histogram_consistent(case, ctx):
     _LC()
     ser = _hist(case)
-    ser0 = ser.copy()
+    ser0 = _snapshot(ser)
     kind, where = case["kind"], case["location"]
     ctx.label(kind, "extra:" + case["extra"], "op:" + case["op"], "loc:" + where)
     lv0 = ser.index.levels[0] if isinstance(ser.index, pd.MultiIndex) else ser.index
@@ -417,10 +489,19 @@ def histogram_consistent(case, ctx):
         else:
             opd = operand[0]
         acc = ser.load_collective
+        opd0 = _snapshot(opd) if isinstance(opd, pd.Series) else opd
+        before = {k: getattr(acc, k).copy() for k in ("amplitude", "meanstress", "upper", "lower", "cycles")}
         res = (acc.scale(opd) if op == "scale" else acc.shift(opd))
         out = res.to_pandas()
-        if not ser.equals(ser0):
-            ctx.label("observation:input_modified")
+        what = "LoadHistogram.%s(%s)" % (op, "per node Series" if isinstance(opd, pd.Series) else "scalar")
+        _assert_unchanged(ser0, ser, what)
+        if isinstance(opd, pd.Series):
+            _assert_unchanged(opd0, opd, what + " [operand]")
+        for k, v in before.items():
+            _same_result(v, getattr(acc, k), "%s: %s of the histogram read before/after the call" % (what, k))
+        _same_result(out, (acc.scale(opd) if op == "scale" else acc.shift(opd)).to_pandas(), what)
+        _same_result(out, (ser.load_collective.scale(opd) if op == "scale" else ser.load_collective.shift(opd)).to_pandas(),
+                     what + " via a fresh accessor")
         src, dst = rows_of(ser0), rows_of(out.reorder_levels(names) if multi and list(out.index.names) != names and set(out.index.names) == set(names) else out)
         if len(src) != len(dst):
             raise Violation("%s: %d classes -> %d classes" % (op, len(src), len(dst)), bucket="hist:%s:rows" % op)
@@ -581,6 +662,9 @@ def collective_histogram(case, ctx):
         """a non-degenerate data range of a few ulp: numpy cannot cut it into classes (its documented ValueError)"""
         return any(0.0 < max(vals[i] for i in mem) - min(vals[i] for i in mem) <= 16 * EPS * max(abs(vals[i]) for i in mem) * int(bins)
                    for mem in grp.values())
+    df_before = _snapshot(df)
+    barg_before = barg.copy(deep=True) if isinstance(barg, pd.IntervalIndex) else None
+    amp_before = lc.amplitude.copy()
     try:
         h1 = lc.range_histogram(barg, axis).to_pandas()
     except ValueError as ex:
@@ -603,6 +687,14 @@ def collective_histogram(case, ctx):
             ctx.tolerate("numpy: too many bins for a data range of a few ulp")
             return
         raise
+    # the collective the caller holds (and a pandas bin specification) is unchanged, the call repeated gives the same histogram
+    _assert_unchanged(df_before, df, "range_histogram/histogram")
+    if isinstance(barg, pd.IntervalIndex) and not barg.equals(barg_before):
+        raise Violation("range_histogram/histogram modified the IntervalIndex bin specification", bucket="input_modified:bins")
+    _same_result(h1, lc.range_histogram(barg, axis).to_pandas(), "range_histogram")
+    if h2 is not None:
+        _same_result(h2, df.load_collective.histogram(barg, axis).to_pandas(), "histogram")
+    _same_result(amp_before, lc.amplitude, "amplitude read before/after histogramming")
     if case["weights"] == "weighted":
         ctx.label("weighted_not_asserted")
         if abs(float(h1.sum()) - float(df["cycles"].sum())) > 1e-9 and float(h1.sum()) <= n:
@@ -786,6 +878,9 @@ def recorder_histogram(case, ctx):
             raise Violation("histogram_numpy and histogram disagree %s: %r vs %r" % (when, float(hn[0].sum()), float(h.sum())),
                             bucket="recorder:numpy_vs_pandas")
         _check_recorder_histogram(h, fr, to, spec, when, ctx)
+        if [float(x) for x in rec.values_from] != fr or [float(x) for x in rec.values_to] != to:
+            raise Violation("taking the histogram %s changed the recorded loops" % when, bucket="input_modified:recorder")
+        _same_result(h, rec.histogram() if spec == "default" else rec.histogram(bins), "LoopValueRecorder.histogram")
         taken += 1
     if taken == 0:
         # in the domain, but nothing to histogram: no loop recorded and a bin count (numpy cannot derive edges from no data);
@@ -879,7 +974,7 @@ def _rebin_cases(draw, tier):
                                min_size=len(fine) - 1, max_size=len(fine) - 1))
         nested = {"edges": fine, "counts": fcounts, "via": draw(st.sampled_from(["combine", "combine", "concat"]))}
     return {"dims": dims, "source": src, "target1": tg1, "target2": tg2, "kinds": kinds, "counts": counts, "nested": nested,
-            "target_level_order": draw(st.sampled_from(["same", "swapped", "swapped"])),
+            "target_level_order": draw(st.sampled_from(["same", "swapped", "swapped"])), "repeat": draw(st.booleans()),
             "closed": draw(st.sampled_from(["right", "right", "left"])), "nan_default": draw(st.sampled_from([False, False, True])),
             "drop_class": drop, "binning_as_multiindex": draw(st.sampled_from([True, True, False])),
             # a histogram is a mapping class -> count: its rows may be listed in any order (sort_values, concat, ...)
@@ -943,7 +1038,7 @@ def rebin_conserves(case, ctx):
     if len(h) > 1 and not h.index.equals(h.sort_index().index):
         ctx.label("source_rows_not_ascending")
         ctx.nontrivial()
-    h0 = h.copy()
+    h0 = _snapshot(h)
     total = float(h.sum())
 
     def binning(tg):
@@ -992,9 +1087,13 @@ def rebin_conserves(case, ctx):
         ctx.label("F06_class")
         if ctx.known("F06"):
             return
+    b1_0 = b1 if isinstance(b1, int) else b1.copy(deep=True)
     r1, lost1 = call(h, b1)
-    if not h.equals(h0):
-        ctx.label("observation:input_modified")
+    _assert_unchanged(h0, h, "rebin_histogram")
+    if not isinstance(b1, int) and not (b1.equals(b1_0) and list(b1.names) == list(b1_0.names)):
+        raise Violation("rebin_histogram modified the target binning it was given", bucket="input_modified:rebin_binning")
+    if case.get("repeat", True):
+        _same_result(r1, call(h, b1)[0], "rebin_histogram")
     cov = covers(b1, case["source"])
     t1 = float(np.nansum(r1.values))
     if cov:
@@ -1138,11 +1237,14 @@ def combine_total(case, ctx):
             grand += float(v)
         hs.append(s)
     ctx.label("%dd" % dims, "n=%d" % len(hs))
-    copies = [s.copy() for s in hs]
+    copies = [_snapshot(s) for s in hs]
+    nlist = len(hs)
     res = combine_histogram(hs, "sum")
     for a, b in zip(hs, copies):
-        if not a.equals(b):
-            ctx.label("observation:input_modified")
+        _assert_unchanged(b, a, "combine_histogram")
+    if len(hs) != nlist:
+        raise Violation("combine_histogram changed the list it was given (%d -> %d histograms)" % (nlist, len(hs)), bucket="input_modified:combine_list")
+    _same_result(res, combine_histogram(hs, "sum"), "combine_histogram")
     if len(model) >= 2 and len([s for s in hs if len(s)]) >= 2:
         ctx.nontrivial()
     if abs(float(res.sum()) - grand) > 1e-12 * max(grand, 1.0):
